@@ -27,7 +27,16 @@ def part_des(chk, quick, rnd):
         return [rnd.randrange(256) for _ in range(n)]
     unit = [[(1 << (7 - (b % 8))) if b // 8 == j else 0 for j in range(8)] for b in range(64)]
     # plain DES: unit-vector keys and blocks, random ones
-    for u in (unit[::4] if quick else unit):
+    # related keys used back to back (keys differing in a single key bit / only in a parity bit): each must get its own schedule
+    for j in range(8):
+        base = rb(8)
+        for bit in (0x02, 0x04, 0x80, 0x01):
+            k2 = list(base)
+            k2[j] ^= bit
+            blk = rb(8)
+            add(kind="block", key=list(base), input=blk, salt=0, rounds=1)
+            add(kind="block", key=k2, input=blk, salt=0, rounds=1)
+    for u in (unit[::3] if quick else unit):
         add(kind="block", key=u, input=rb(8), salt=0, rounds=1)
         add(kind="block", key=rb(8), input=u, salt=0, rounds=1)
     for _ in range(10 if quick else 100):
